@@ -1,0 +1,52 @@
+//go:build verif
+
+package vss
+
+import (
+	"errors"
+
+	"go.dedis.ch/kyber/v4"
+	"go.dedis.ch/kyber/v4/sign/schnorr"
+)
+
+// VerifEncryptDeal is a verification hook, compiled only with the build tag
+// "verif". It is the body of EncryptedDeal with the plaintext and the signer
+// of the ephemeral key made parameters, so that a simulated malicious dealer
+// goes through the real DH + HKDF + AES-GCM path. When raw is non-nil it is
+// encrypted as is; otherwise deal is marshalled. A nil signer means the
+// dealer's long-term key.
+func (d *Dealer) VerifEncryptDeal(i int, deal *Deal, raw []byte, signer kyber.Scalar) (*EncryptedDeal, error) {
+	vPub, ok := findPub(d.verifiers, uint32(i))
+	if !ok {
+		return nil, errors.New("dealer: wrong index to generate encrypted deal")
+	}
+	if signer == nil {
+		signer = d.long
+	}
+	dhSecret := d.suite.Scalar().Pick(d.suite.RandomStream())
+	dhPublic := d.suite.Point().Mul(dhSecret, nil)
+	dhPublicBuff, _ := dhPublic.MarshalBinary()
+	signature, err := schnorr.Sign(d.suite, signer, dhPublicBuff)
+	if err != nil {
+		return nil, err
+	}
+	pre := dhExchange(d.suite, dhSecret, vPub)
+	gcm, err := newAEAD(d.suite.Hash, pre, d.hkdfContext)
+	if err != nil {
+		return nil, err
+	}
+	nonce := make([]byte, gcm.NonceSize())
+	dealBuff := raw
+	if dealBuff == nil {
+		dealBuff, err = deal.Marshal()
+		if err != nil {
+			return nil, err
+		}
+	}
+	encrypted := gcm.Seal(nil, nonce, dealBuff, d.hkdfContext)
+	return &EncryptedDeal{
+		DHKey:     dhPublicBuff,
+		Signature: signature,
+		Cipher:    encrypted,
+	}, nil
+}
